@@ -4,7 +4,8 @@
    [reachable c pol s]: s is produced from the idle server by ANY finite sequence of atomic
    steps (any scheduler, any number of requests — LSpawn adds one —, any per-request outcome:
    success, backend error, client cancel, body too large, panic; any retry decisions; Select
-   interleaved read by read with everything else; compare-and-swaps of acquireConn won or lost;
+   interleaved atomic load by atomic load (Unhealthy, Fails, Conns of each host.Available()) with
+   everything else; compare-and-swaps of acquireConn won or lost;
    every recorded failure's own expiry goroutine firing at any moment at or after failure time +
    fail_timeout; the health-check worker storing any verdict at any moment), for ANY contract
    [pol] of what Select may answer (any policy, sound or not) and ANY max_conns / max_fails /
@@ -228,6 +229,25 @@ Example C14_down_iff_maxfails_nonvacuous :
   end.
 Proof. vm_compute. repeat split; reflexivity. Qed.
 
+(* ... and with timers late by less than delta: Fails lies between the failures younger than
+   fail_timeout and those younger than fail_timeout + delta — lateness can only keep a backend down
+   longer, by at most delta. *)
+Theorem C14_fails_bounds_under_late_timers :
+  forall c pol s h delta, reachable c pol s -> late_by c delta s ->
+  unexpired c s h <= fails s h <=
+  cnt (fun f => on_host h f && (now s <? f_at f + c_fail_timeout c + delta)) (flog s).
+Proof. exact fails_bounds_under_late_timers. Qed.
+Print Assumptions C14_fails_bounds_under_late_timers.
+
+Example C14_fails_bounds_under_late_timers_nonvacuous :
+  match run cfg_cap1 pol_any (init 0 healthy)
+            ([LSpawn] ++ sel0 0 ++ [LLoad 0; LCas 0; LFinish 0 OError; LRecord 0 true; LTick 12]) with
+  | Some s => promptb cfg_cap1 s = false /\ unexpired cfg_cap1 s 0%nat = 0 /\ fails s 0%nat = 1 /\
+              forallb (fun f => negb (asleep f) || (now s <? f_at f + 10 + 3)) (flog s) = true
+  | None => False
+  end.
+Proof. vm_compute. repeat split; reflexivity. Qed.
+
 Theorem C14_fails_zero_when_all_expired :
   forall c pol s h, reachable c pol s -> prompt c s ->
   (forall f, In f (flog s) -> f_host f = h -> f_at f + c_fail_timeout c <= now s) -> fails s h = 0.
@@ -307,13 +327,16 @@ Proof. exact begin_forwards_unless_full. Qed.
 Print Assumptions C14_begin_forwards_unless_full.
 
 (* ===== Select against the health checker (and every other writer): a sequence of reads ===== *)
-(* The host a Select returns was available — not marked unhealthy, below max_fails, below
-   max_conns — in SOME state between the entry and the return of that very Select. *)
+(* For the host a Select returns, each of the three facts that make it available — not marked
+   unhealthy, below max_fails, below max_conns — held in SOME state between the entry and the return
+   of that very Select (the three loads of host.Available() are three moments). *)
 Theorem C14_select_result_available_during_select :
   forall c pol s0 t mid h r s1,
   pol_sound pol -> existsb (is_selstart t) mid = false ->
   run c pol s0 (LSelStart t :: mid ++ [LSelEnd t (Some h) r]) = Some s1 ->
-  exists l1 l2 si, mid = l1 ++ l2 /\ run c pol s0 (LSelStart t :: l1) = Some si /\ available c si h = true.
+  (exists l1 l2 si, mid = l1 ++ l2 /\ run c pol s0 (LSelStart t :: l1) = Some si /\ unhealthy si h = false) /\
+  (exists l1 l2 si, mid = l1 ++ l2 /\ run c pol s0 (LSelStart t :: l1) = Some si /\ fails si h < c_max_fails c) /\
+  (exists l1 l2 si, mid = l1 ++ l2 /\ run c pol s0 (LSelStart t :: l1) = Some si /\ full c si h = false).
 Proof. exact select_result_available_during. Qed.
 Print Assumptions C14_select_result_available_during_select.
 
@@ -336,11 +359,14 @@ Example C14_unhealthy_before_select_never_selected_nonvacuous :
   let s0 := init_threads 0 (fun _ => true) 1 in
   unhealthy s0 0%nat = true /\
   run cfg_cap1 (pol_std 1) s0 (LSelStart 0 :: [LSelRead 0 0] ++ [LSelEnd 0 (Some 0%nat) 0%N]) = None /\
-  run cfg_cap1 (pol_std 1) s0 (LSelStart 0 :: [LHealth 0 false; LSelRead 0 0] ++ [LSelEnd 0 (Some 0%nat) 0%N]) <> None.
-Proof. vm_compute. repeat split; try reflexivity. discriminate. Qed.
+  run cfg_cap1 (pol_std 1) s0 (LSelStart 0 :: [LSelRead 0 0] ++ [LSelEnd 0 None 0%N]) <> None /\
+  run cfg_cap1 (pol_std 1) s0
+      (LSelStart 0 :: [LHealth 0 false; LSelRead 0 0; LSelRead 0 0; LSelRead 0 0] ++ [LSelEnd 0 (Some 0%nat) 0%N]) <> None.
+Proof. vm_compute. repeat split; try reflexivity; discriminate. Qed.
 
-(* What is NOT guaranteed: the availability read is a snapshot.  A host marked unhealthy after the
-   read (during the Select, or in the window after it) is still answered and forwarded to. *)
+(* What is NOT guaranteed: the availability read is a snapshot.  A host marked unhealthy after its
+   Unhealthy flag was loaded (in the middle of host.Available(), later in the Select, or in the
+   window after it) is still answered and forwarded to. *)
 Theorem C14_selected_host_healthy_refuted :
   exists c s h, reachable c (pol_std (c_hosts c)) s /\
                 nth_error (threads s) 0 = Some (Forwarding h) /\ unhealthy s h = true /\
